@@ -92,7 +92,7 @@ func (m *machine) closure(op ops.Op) []string {
 
 func mutating(k string) bool {
 	switch k {
-	case "stat", "readdir", "readfile", "lstat", "open":
+	case "stat", "readdir", "readfile", "lstat", "lstatorstat", "open":
 		return false
 	}
 	return true
